@@ -27,7 +27,7 @@
                                                  escape (now: C08_toc_total)                                  -- fixed *)
 From Coq Require Import ZArith NArith List Bool.
 From PydoctorVerif Require Import Base.Sexp Model.Barrier Gen.Skeleton Proofs.BarrierProofs
-     Model.DocFlow Spec.DocContract Proofs.DocFlowProofs.
+     Model.DocFlow Spec.DocContract Proofs.DocFlowProofs Model.DocFlowIR Gen.DocFlowCode Proofs.DocFlowIRProofs.
 Import ListNotations.
 Local Open Scope N_scope.
 
@@ -60,14 +60,58 @@ Qed.
    -- which is how reverting ef2e650 (back to `except NotImplementedError`) breaks C08_barrier_total *)
 Definition narrow_handlers (b : list sk) : list sk :=
   map (fun s => match s with
-                | STry body [([x], h)] orelse fin =>
-                  if N.eqb x c_Exception then STry body [([c_ImportError], h)] orelse fin else s
+                | Barrier.STry body [([x], h)] orelse fin =>
+                  if N.eqb x c_Exception then Barrier.STry body [([c_ImportError], h)] orelse fin else s
                 | _ => s
                 end) b.
 
 Lemma C08_get_toc_handler_is_needed :
   total ancestors_table allowed_table (narrow_handlers sk_parseddocstring_get_toc) = false.
 Proof. vm_compute. reflexivity. Qed.
+
+(* ================================================================== (a') the translated source IS the model *)
+(* The bodies of epydoc2stan.reportErrors / parse_docstring / ensure_parsed_docstring / safe_to_stan are translated
+   statement by statement from /repo's CURRENT source (harness/gen/gen_c08_code.py, fail-closed, rerun on every check)
+   into the statement language of Model/DocFlowIR.v (Gen/DocFlowCode.v).  Interpreting THAT code is the hand-written
+   model the theorems below are about -- same returned value, same final state -- for every state, configuration,
+   argument and oracle behaviour.  An edit of the Python source that changes what these functions do breaks one of
+   these obligations; an edit that keeps the meaning (renamed locals, early return instead of nested if, one `except
+   Exception` with an isinstance test instead of two clauses, a local alias of the plaintext parser) still proves. *)
+Theorem C08_code_report_errors_is_model :
+  forall (O : oracles) (c : config) (st : state) (who : oid) (errs : list perr) (sec : N),
+    run_report_errors docflow_code O c [VObj who; VErrs errs; VSec sec] st =
+    CRet VNone (report_errors st who errs sec).
+Proof. exact code_report_errors_is_model. Qed.
+
+Theorem C08_code_parse_docstring_is_model :
+  forall (O : oracles) (c : config) (st : state) (obj : oid) (doc : text) (source : oid) (markup : option N) (sec : N),
+    run_parse_docstring docflow_code O c [VObj obj; VText doc; VObj source; markup_value markup; VSec sec] st =
+    CRet (VParsed (fst (parse_docstring O c st obj doc source markup sec)))
+         (snd (parse_docstring O c st obj doc source markup sec)).
+Proof. exact code_parse_docstring_is_model. Qed.
+
+Theorem C08_code_ensure_parsed_docstring_is_model :
+  forall (O : oracles) (c : config) (st : state) (o : oid),
+    run_ensure_parsed_docstring docflow_code O c [VObj o] st =
+    CRet (opt_value VObj (fst (ensure_parsed_docstring O c st o))) (snd (ensure_parsed_docstring O c st o)).
+Proof. exact code_ensure_parsed_docstring_is_model. Qed.
+
+Theorem C08_code_safe_to_stan_is_model :
+  forall (O : oracles) (c : config) (st : state) (pd : parsed) (linker : value) (ctx : oid) (fb : fallback)
+         (rep : bool) (sec : N),
+    run_safe_to_stan docflow_code O c [VParsed pd; linker; VObj ctx; VFb fb; VBool rep; VSec sec] st =
+    CRet (VStan (fst (safe_to_stan O c st pd ctx fb rep sec))) (snd (safe_to_stan O c st pd ctx fb rep sec)).
+Proof. exact code_safe_to_stan_is_model. Qed.
+
+(* ... and the property read directly off the translated parse_docstring: a parser pipeline that gives up yields
+   plaintext(doc), recorded against the source. *)
+Theorem C08_code_parse_docstring_falls_back :
+  forall (O : oracles) (c : config) (st : state) (obj : oid) (doc : text) (source : oid) (sec : N),
+    gives_up O c (applicable_format c source) doc ->
+    exists st', run_parse_docstring docflow_code O c [VObj obj; VText doc; VObj source; VNone; VSec sec] st =
+                CRet (VParsed (PPlain doc)) st' /\
+                (raised_error_is_recorded O -> mem_pe sec source (parse_errors st') = true).
+Proof. exact code_parse_docstring_falls_back. Qed.
 
 (* ================================================================== (b) the fallback / reporting logic *)
 
@@ -519,6 +563,12 @@ Example C08_field_hypotheses_satisfiable :
   (let st' := snd (ensure_parsed_docstring exO exC st0 3) in
    pdoc st' 3 = Some (PMark 10) /\ to_stan exO 10 = Some 10 /\ (forall f, In f (fields_of exO 10) -> to_stan exO f <> None)).
 Proof. cbn zeta. repeat split; try (vm_compute; reflexivity). left; reflexivity. intros f []. Qed.
+
+Example C08_code_hypotheses_satisfiable :
+  gives_up exO exC (applicable_format exC 1) [1] /\
+  run_parse_docstring docflow_code exO exC [VObj 1; VText [1]; VObj 1; VNone; VSec 0] st0 =
+  CRet (VParsed (PPlain [1])) (mkState [(0, 1)] [(1, 0, EParser 7)] (fun _ => None) (fun _ => None)).
+Proof. split; [exact ex_gives_up_1|vm_compute; reflexivity]. Qed.
 
 Example C08_epytext_hypotheses_satisfiable :
   In (2, true) [(1, false); (2, true); (3, true)] /\
